@@ -670,6 +670,30 @@ def run(model: RepoModel, rep, tier: str):
                           f"does not contain it (or writes a bundle the index does not know), so the item just saved cannot be read back")
         else:
             rep.holds("C15.R2", key, FILE, f.node.lineno, "every call that reads the tables is dominated by both stores (or precedes both)")
+    # index keys survive the round trip: a loader whose export_indexing turns an object key into a sequence (`key.to_tuple()`) gets that
+    # column back from feather as numpy arrays -- restore_indexing has to recognise that container (and lists) to rebuild the key object,
+    # otherwise the restored index holds tuples that no lookup by the original key ever equals
+    for c in family:
+        ex, rs = c.methods.get("export_indexing"), c.methods.get("restore_indexing")
+        if ex is None or rs is None or not any(isinstance(x, ast.Call) and isinstance(x.func, ast.Attribute) and x.func.attr == "to_tuple" for x in walk_no_nested(ex.node)):
+            continue
+        key = f"{FILE}::{rs.qualname}::sequence keys written by export_indexing are rebuilt from what feather returns"
+        tested = set()
+        for x in walk_no_nested(rs.node):
+            if isinstance(x, ast.Call) and call_name(x) == "isinstance" and len(x.args) == 2:
+                for t in ast.walk(x.args[1]):
+                    if isinstance(t, ast.Name):
+                        tested.add(t.id)
+                    elif isinstance(t, ast.Attribute):
+                        tested.add(t.attr)
+        rebuilds = any(isinstance(x, ast.Call) and (call_name(x) or "")[:1].isupper() and len(x.args) >= 3 for x in walk_no_nested(rs.node))
+        if "ndarray" in tested and rebuilds:
+            rep.holds("C15.R3", key, FILE, rs.node.lineno, f"container types recognised: {sorted(tested & {'list', 'tuple', 'ndarray'})}; the key object is rebuilt")
+        else:
+            rep.violation("C15.R3", key, FILE, rs.node.lineno,
+                          f"{ex.qualname} writes object keys as sequences (to_tuple), and a list column comes back from feather as numpy.ndarray; "
+                          f"{rs.qualname} recognises only {sorted(tested & {'list', 'tuple', 'ndarray'}) or 'no container type'}: the array falls through to the "
+                          f"unhashable-key fallback and is stored as a plain tuple, so a fresh loader never finds an item under the key it was saved with")
     nb = gl.methods.get("new_bundle_id")
     key = f"{FILE}::GeneralLoader.new_bundle_id::returns the counter and advances it"
     if nb is not None:
